@@ -48,7 +48,8 @@ CLAIMED = {
         "determinate, first-order simulations with drawn initial conditions and dated unanticipated/anticipated/measurement shocks must make "
         "every equation hold (leads read from the continuation re-simulated under each information set), agree with their continuations, return "
         "to the steady state 400 periods ahead, satisfy the measurement equations, obey levels = steady (+|*) deviations and be time consistent, "
-        "also after earlier simulations with other anticipation horizons on the same object, when repeated, and under force_split_frames=True; "
+        "also after earlier simulations with other anticipation horizons (or a Kalman filter run with anticipated shock data) on the same object, when "
+        "repeated, under force_split_frames=True, and for each variant of a two-variant model; "
         "the unstable-root count must equal the number of leads iff the harness classifies the model determinate, and finite eigenvalue moduli must agree.",
         "Trusts numpy/scipy eig/ordqz for the classification; near-unit-root (|lambda| in [0.93,1.07]) and rank-deficient models are not judged; small well-conditioned models only.",
         "DESIGN.md section 3, C01",
@@ -109,7 +110,7 @@ CLAIMED = {
         "the data where observed and be NaN elsewhere, satisfy every measurement equation (smoothed measurement shocks, log-variables) and "
         "every lead-free transition equation under the harness's own evaluator, be reproduced by simulate() started from its first periods with "
         "the smoothed shocks, and satisfy level-mode = steady (+|*) deviation-mode; also with anticipated shock values supplied as data, for "
-        "unit-root models under fixed_unknown, and under drawn output selections that still return the smoother.",
+        "unit-root models under fixed_unknown, under drawn output selections that still return the smoother, and for each variant of a two-variant model.",
         "Equations are judged where all values they read are inside the returned span; singular observation covariances are excluded by construction; tolerance 1e-8 relative.",
         "DESIGN.md section 3, C08",
     ),
@@ -203,7 +204,7 @@ CLAIMED = {
         "For generated Simultaneous models a pool of objects derived by copy/pickle/dill/save-load/portable receives interleaved assign, "
         "assign-std, solve, steady, override_tolerance and alter_num_variants operations; every variant of every object is shadowed by a fresh single-variant model on "
         "which only its own lineage is replayed, and parameters, stds, steady state, T/P/K/Z/H/D, a fixed simulation and the Kalman likelihood "
-        "are compared after every step (aliasing, stale state after pickling and cross-variant leakage show as mismatches); the portable form "
+        "and the parameter/std values carried by Databox.steady/Databox.zero are compared after every step (aliasing, stale state after pickling and cross-variant leakage show as mismatches); the portable form "
         "must round-trip names, kinds, log status, equations, flags and values; smaller sequence checks cover Sequential (incl. reorder_equations / "
         "sequentialize on either object) and RedVAR.",
         "Results, not object identity, are compared (Schur-basis dependent matrices excluded); get_variant views are only read; sequences <= 12 steps.",
